@@ -723,9 +723,12 @@ func (r *c12Rig) takeCalls() []callObs {
 // overlap: request A (op.Host) is started; the first review it issues is held in flight at the
 // endpoint that received it; meanwhile request B (op.Host2, same token / same attributes) must run
 // to completion on its own; then A's review is released and A's result collected.
-// B is given 300 ms, counted from its start and again from every review it issues (a review that
-// got a retriable failure is followed by the code's own back-off sleep of up to ~2 s, so the bound
-// is 2.5 s after such a review).  A request that makes no progress within the bound while A's
+// B is given c12Bound (3 s), counted from its start and again from every review it issues (a review
+// that got a retriable failure is followed by the code's own back-off sleep of up to ~2 s, so the
+// bound is 2.5 s longer after such a review).  A correct B needs milliseconds; the bound is generous
+// because 300 ms was exceeded once by plain CPU starvation on a heavily loaded machine (a request for
+// an unknown host flagged as blocked).  A B that waits for A's flight never completes before the
+// release, whatever the bound.  A request that makes no progress within the bound while A's
 // review is in flight is recorded as blocked.
 // Reviews are attributed to the request that issued them (host tag of the client they were created
 // through), never by timing.
@@ -778,7 +781,8 @@ func (r *c12Rig) overlap(op *c12Op) stepObs {
 	doneB := make(chan *stepObs, 1)
 	go func() { doneB <- run(&opB) }()
 	blocked := false
-	deadline := time.Now().Add(300 * time.Millisecond)
+	const c12Bound = 3 * time.Second
+	deadline := time.Now().Add(c12Bound)
 	seen := 0
 	for b == nil && !blocked {
 		select {
@@ -796,9 +800,9 @@ func (r *c12Rig) overlap(op *c12Op) stepObs {
 			if n > seen { // B made progress: it issued another review
 				seen = n
 				if last.retry {
-					deadline = time.Now().Add(2500 * time.Millisecond)
+					deadline = time.Now().Add(c12Bound + 2500*time.Millisecond)
 				} else {
-					deadline = time.Now().Add(300 * time.Millisecond)
+					deadline = time.Now().Add(c12Bound)
 				}
 			}
 			if time.Now().After(deadline) {
